@@ -115,7 +115,7 @@ def check_C08(run):
     run.model("AvroSystem", "AvroSystem_thorough" if run.thorough() else "AvroSystem_quick")
     run.model("MC_Wire", "MC_Wire_quick")
     out, meta = run.drive("C08")
-    require_realised(meta, ["count-2-bytes", "len-2-bytes", "len-3-bytes", "blocks=0", "blocks=1", "blocks=3"])
+    require_realised(meta, ["count-2-bytes", "len-2-bytes", "len-3-bytes", "blocks=0", "blocks=1", "blocks=3", "payload-over-1MiB"])
     total, rejected, states, _ = V.judge(run.scratch, "Trace_Reader", out)
     cov = std_cov(run, meta, total, states,
                   "one trace per valid file (3 codecs x 7 block layouts incl. empty, one record per block, 70 records in one block, a 9000-byte record); "
